@@ -84,6 +84,19 @@ def shards(tier, seed):
             out.append(("L1", proto, layouts[0][0], layouts[0][1], 0, cfgs[i:i + step], 1, True))
             if T:
                 out.append(("L1", proto, layouts[1][0], layouts[1][1], 1, cfgs[i:i + step], 1, True))
+    # ---- L4: states of the parental matrix: never grouped / variants stored unsorted / optional arrays absent
+    pgvars = [dict(group=False), dict(group=False, vperm=[2, 0, 1]), dict(group=False, vperm=[1, 2, 0], drop=["vrnt_name", "vrnt_genpos"]),
+              dict(drop=["vrnt_hapgrp", "vrnt_mask", "vrnt_name"]), dict(group=False, drop=["vrnt_genpos", "vrnt_hapgrp", "vrnt_mask"]),
+              dict(group=True, vperm=[2, 1, 0])]
+    for proto in R.PROTOS:
+        k = R.NPARENT[proto]
+        cov = _cover(list(itertools.product(range(n), repeat=k)), k)
+        for pi, pgo in enumerate(pgvars):
+            for nself in (0, 1):
+                cfgs = [([cov[(pi + nself) % len(cov)]], 1, 2), ([cov[1], cov[(pi + 2) % len(cov)]], [1, 2], [2, 1])]
+                if not T:
+                    cfgs = cfgs[(pi + nself) % 2::2]
+                out.append(("L4", proto, (2, 1), [0.5, q, 0.5], nself, cfgs, 1, pgo))
     # ---- L2: all answers of one gamete pair for all xoprob vectors (meiosis exactness)
     vals = [0.0, q, 0.5, 1.0]
     vecs = list(itertools.product(vals, repeat=3))
@@ -133,18 +146,20 @@ def _cover(tuples, k):
 
 # ----------------------------------------------------------------------------
 def run_case(ctx, proto, lay, xop, nself, xconfig, nm, npg, answers=None, bound=None, counters=(0, 0),
-             two_calls=False, split=None, seed=None):
+             two_calls=False, split=None, seed=None, pgopts=None):
     """Explore all answer vectors (<= bound deviations) of one configuration."""
     n = 3 if max(max(r) for r in xconfig) >= 2 else 3
     seed = ctx.seed if seed is None else seed
-    pg, decode = prov_pgmat(n, lay, xop, seed)
+    pgopts = pgopts or {}
+    pg, decode = prov_pgmat(n, lay, xop, seed, **{k: (tuple(v) if isinstance(v, list) else v) for k, v in pgopts.items()})
+    xop = [float(v) for v in pg.vrnt_xoprob]   # as stored (grouping may have re-ordered the columns)
     before = snapshot(pg)
     cls = _proto_cls(proto)
     xc = numpy.array(xconfig, dtype="int64")
     nm_a = nm if isinstance(nm, int) else numpy.array(nm, dtype="int64")
     np_a = npg if isinstance(npg, int) else numpy.array(npg, dtype="int64")
     case_base = dict(proto=proto, layout=list(lay), xoprob=list(xop), nself=nself, xconfig=[list(r) for r in xconfig],
-                     nmating=nm, nprogeny=npg, counters=list(counters), two_calls=two_calls, seed=seed)
+                     nmating=nm, nprogeny=npg, counters=list(counters), two_calls=two_calls, seed=seed, pgopts=pgopts)
 
     def run(ch):
         h = MeiosisHandler(ch, xop, mode="full")
@@ -334,6 +349,17 @@ def run_shard(spec, ctx):
             if 0.5 in vec:
                 ctx.flag("xoprob-0.5")
         ctx.flag(f"L2:{proto}")
+    elif layer == "L4":
+        for ci, (xconfig, nm, npg) in enumerate(cfgs):
+            run_case(ctx, proto, lay, xop, nself, xconfig, nm, npg, bound=bound, counters=(2, 9), pgopts=flag,
+                     two_calls=(ci % 2 == 0))
+        ctx.flag("pg:" + ",".join(f"{k}={v}" for k, v in sorted(flag.items())))
+        if not flag.get("group", True):
+            ctx.flag("parents-never-grouped")
+        if flag.get("vperm"):
+            ctx.flag("variants-stored-unsorted")
+        if flag.get("drop"):
+            ctx.flag("optional-arrays-absent")
     elif layer == "L3":
         (xconfig, nm, npg), = cfgs
         run_case(ctx, proto, lay, xop, nself, xconfig, nm, npg, bound=bound, counters=(3, 1), split=flag)
@@ -345,7 +371,8 @@ def finalize(ctx, tier, seed):
     for proto in R.PROTOS:
         assert ctx.counters.get(f"exec:{proto}", 0) > 0, proto
         assert f"L3:{proto}:nself1" in ctx.flags
-    for f in ("array-counts", "repeated-parents", "xoprob-0", "xoprob-1", "xoprob-0.5"):
+    for f in ("array-counts", "repeated-parents", "xoprob-0", "xoprob-1", "xoprob-0.5", "parents-never-grouped",
+              "variants-stored-unsorted", "optional-arrays-absent"):
         assert f in ctx.flags, f
     assert len(ctx.outcomes) > 100, len(ctx.outcomes)
 
@@ -353,4 +380,4 @@ def finalize(ctx, tier, seed):
 def replay(case, ctx):
     run_case(ctx, case["proto"], tuple(case["layout"]), case["xoprob"], case["nself"],
              [tuple(r) for r in case["xconfig"]], case["nmating"], case["nprogeny"],
-             answers=case["answers"], counters=tuple(case["counters"]), two_calls=case["two_calls"], seed=case.get("seed"))
+             answers=case["answers"], counters=tuple(case["counters"]), two_calls=case["two_calls"], seed=case.get("seed"), pgopts=case.get("pgopts"))
